@@ -122,6 +122,8 @@ trait ExternalInfo {
 
     fn next_update<'a>(&mut self, player: &'a Player) -> &'a Node {
         self.update_cum_strat();
+        #[cfg(feature = "verif-hooks")]
+        crate::verif::yield_point();
         self.next(player)
     }
 }
